@@ -4,8 +4,8 @@ import numpy as np
 import kernels, tvlib
 from speclib import pen_instances_1d, block_instances, VALS
 
-GEN_SOURCES = ["skglm/penalties/separable.py", "skglm/penalties/block_separable.py", "skglm/utils/prox_funcs.py"]
-EXTRA_TARGETS = ["Gen/ProxFuncs.vo", "Gen/PenSeparable.vo", "Gen/PenBlock.vo"]
+GEN_SOURCES = ["skglm/penalties/separable.py", "skglm/penalties/block_separable.py", "skglm/utils/prox_funcs.py", "skglm/solvers/common.py"]
+EXTRA_TARGETS = ["Gen/ProxFuncs.vo", "Gen/PenSeparable.vo", "Gen/PenBlock.vo", "Gen/KernCD.vo"]
 TRUSTED_BASE = [
     "Coq 8.16.1 kernel (coqc); vm_compute only in correspondence files",
     "axioms: Reals (sig_forall_dec, sig_not_dec), functional_extensionality_dep, Classical_Prop.classic",
